@@ -106,7 +106,7 @@ PinnedSlots(c) ==
   ELSE IF c.op = "embedding" THEN {"weight"}
   ELSE IF c.op = "dropout" THEN {"out", "input"}
   ELSE IF c.op = "mse_loss" THEN {"input", "target"}
-  ELSE IF c.op = "layer_norm" THEN {"weight"} \cup (IF c.bias THEN {"bias"} ELSE {})
+  ELSE IF c.op = "layer_norm" THEN (IF c.weight THEN {"weight"} ELSE {}) \cup (IF c.bias THEN {"bias"} ELSE {})   \* bias-only affine is a valid call
   ELSE IF c.op = "rms_norm" THEN {"weight"}
   ELSE IF c.op = "residual_add" THEN {"residual", "skip"}
   ELSE {}
